@@ -47,6 +47,8 @@ def _correspondence_once(ctx, rep=0):
     for j in jobs:
         tcorr.compare(ctx, j, 'C02', observables=('out', 'ld'))
     reshape_index_maps(ctx)
+    from harness.props import c01 as _c01
+    _c01.spline_boxes(ctx, gen, inverse=True, prop='C02')   # exported spline functions, non-square boxes, non-default minima
     # linear family (generic, non-initial parameters), normalisation layers, permutations, squeeze, wrappers, UMNN: round trip directly
     oracles.direct_on_extras(ctx, 'C02', oracles.roundtrip_search)
 
